@@ -278,19 +278,12 @@ func Round(ctx *expr.Context, input system.Collection, args ...expr.Expression) 
 		return nil, err
 	}
 	// Rounding number
-	switch value.(type) {
+	switch v := value.(type) {
 	case system.Decimal:
-		res, _ := input[0].(system.Decimal)
-		result := res.Round(precision)
-		return system.Collection{result}, nil
+		return system.Collection{v.Round(precision)}, nil
 	case system.Integer:
-		number, err := input.ToInt32()
-		if err != nil {
-			return nil, err
-		}
-		res := system.MustParseDecimal(fmt.Sprintf("%d", number))
-		result := res.Round(precision)
-		return system.Collection{result}, nil
+		res := system.Decimal(decimal.NewFromInt32(int32(v)))
+		return system.Collection{res.Round(precision)}, nil
 	}
 	return nil, errors.New("input is not a number")
 }
